@@ -216,7 +216,6 @@ pub fn plans(prop: &str, tier: &str) -> Vec<Plan> {
         "C02" => {
             let mut a = sc_types(prop, &[]);
             a.check.c02 = true;
-            a.variants = vec![(true, true)];
             // a template whose own price differs from the level's: "the level's price" must be used
             a.templates.push(("SX5".into(), mk_ts(Tmpl::SX5, 0, LEVEL_PRICE, 0)));
             let n = a.templates.len() - 1;
@@ -224,13 +223,10 @@ pub fn plans(prop: &str, tier: &str) -> Vec<Plan> {
             a.ops.push(Op::Add(2, n));
             let mut o = sc_order(prop);
             o.check.c02 = true;
-            o.variants = vec![(true, true)];
             let mut z = sc_zero(prop);
             z.check.c02 = true;
-            z.variants = vec![(true, true)];
             let mut e = sc_edge(prop);
             e.check.c02 = true;
-            e.variants = vec![(true, true)];
             vec![
                 Plan { cfg: a, depth: d(4, 5) },
                 Plan { cfg: o, depth: d(6, 8) },
@@ -301,12 +297,12 @@ pub fn plans(prop: &str, tier: &str) -> Vec<Plan> {
             a.check.twin = true;
             a.check.drain = true;
             a.absent_ops = true;
-            a.variants = vec![(true, true)];
+            a.variants = vec![(false, false), (true, false), (false, true), (true, true)];
             let mut o = sc_order(prop);
             o.check.c07 = true;
             o.check.twin = true;
             o.check.drain = true;
-            o.variants = vec![(true, true)];
+            o.variants = vec![(false, false), (true, false), (false, true), (true, true)];
             o.ops.extend(upds(
                 &[1, 2, 3],
                 &[UpdKind::Move, UpdKind::RepriceSame, UpdKind::ReplaceSame(2), UpdKind::PqMove(2)],
@@ -316,7 +312,7 @@ pub fn plans(prop: &str, tier: &str) -> Vec<Plan> {
             w.check.twin = true;
             w.check.drain = true;
             w.absent_ops = true;
-            w.variants = vec![(true, true)];
+            w.variants = vec![(false, false), (true, false), (false, true), (true, true)];
             vec![
                 Plan { cfg: a, depth: d(4, 5) },
                 Plan { cfg: o, depth: d(5, 6) },
@@ -339,7 +335,7 @@ pub fn plans(prop: &str, tier: &str) -> Vec<Plan> {
         "C11" => {
             let mut o = sc_order(prop);
             o.check.c11 = true;
-            o.variants = vec![(true, true)];
+            o.variants = vec![(false, false), (true, false), (false, true), (true, true)];
             // timestamps pinned per template are not used: the (id, template) table gives ties (#2,#3)
             // and a later #1; an amended / replenished / re-queued order keeps its timestamp
             vec![Plan { cfg: o, depth: d(4, 6) }]
